@@ -61,6 +61,10 @@ class Dev:
         self.custom = custom or {}
         self.nested_bool_conflation = nested_bool_conflation
         self.used_waiver = False
+        # `waiver` may also be a sequence: one decision per occurrence, in evaluation order (the deviation
+        # reads "MAY be omitted" - statham waives a property-level `required`, not a `required` list, so the
+        # occurrences of one case can fall differently)
+        self.waiver_seen = 0
         self.used_fmt_unknown = False
 
 
@@ -336,7 +340,13 @@ def valid(schema, value, root=None, dev=None, depth=0):
                     pass
             if isinstance(declared, dict) and "default" in declared:
                 dev.used_waiver = True
-                if dev.waiver:
+                occurrence = dev.waiver_seen
+                dev.waiver_seen += 1
+                if isinstance(dev.waiver, (list, tuple)):
+                    decision = dev.waiver[occurrence] if occurrence < len(dev.waiver) else False
+                else:
+                    decision = dev.waiver
+                if decision:
                     continue
             return False
         additional = schema.get("additionalProperties", True)
@@ -411,6 +421,20 @@ def verdicts(schema, value, root=None, curated=None, **switches):
             out.add(valid(schema, value, root, dev))
             if len(out) == 2:
                 break
+    occurrences = max(first.waiver_seen, probe.waiver_seen)
+    if len(out) < 2 and 2 <= occurrences <= 8:
+        import itertools  # pylint: disable=import-outside-toplevel
+
+        for plan in itertools.product((True, False), repeat=occurrences):
+            if all(plan) or not any(plan):
+                continue    # the uniform plans were evaluated above
+            for fmt_unknown in ((True, False) if used[1] else (True,)):
+                dev = Dev(waiver=plan, fmt_unknown=fmt_unknown, mult_disputed=True, curated=curated, **switches)
+                out.add(valid(schema, value, root, dev))
+            if len(out) == 2:
+                break
+    elif len(out) < 2 and occurrences > 8:
+        return {True, False}
     return out
 
 
